@@ -96,6 +96,7 @@ def _cases(rng, n):
         reqs.append(("cmpkeys", {"a": enc(a), "b": enc(b)})); want.append(w)
     # --- end T6
     _cases_t2(rng, n, reqs, want)
+    _cases_t4(rng, n, reqs, want)  # --- T4
     return reqs, want
 
 
@@ -189,6 +190,82 @@ def _cases_t2(rng, n, reqs, want):
         reqs.append(("t2_formatb", {"n": common.rat(k)})); want.append("{0:b}".format(k))
 
 
+def _cases_t4(rng, n, reqs, want):
+    """--- T4: exceptions with their class, numeric values (the driver runs them at Rat, CPython at fractions.Fraction / dyadic floats),
+    dicts with numeric values, `int(str)`, `str.split`, `math.isclose`.  Expected values come from CPython itself."""
+    import math
+    from collections import Counter
+    from fractions import Fraction
+
+    def R(f):
+        f = Fraction(f)
+        return str(f.numerator) if f.denominator == 1 else f"{f.numerator}/{f.denominator}"
+
+    def exc(thunk, conv):
+        names = {"RuntimeError": "runtime", "ValueError": "value", "IndexError": "index", "KeyError": "key", "TypeError": "type",
+                 "ZeroDivisionError": "zeroDiv"}
+        try:
+            return {"ok": conv(thunk())}
+        except (RuntimeError, ValueError, IndexError, KeyError, TypeError, ZeroDivisionError) as e:
+            return {"err": names[type(e).__name__]}
+    strs = ["", "0", "7", "12", "-3", "+4", "-", "+", "--1", "+-1", "1-", "a", "1a", "a1", "007", "-0", "1,2", ",", "99999999999999999999"]
+    strs += ["".join(rng.choice("0123456789+-a,") for _ in range(rng.randrange(0, 5))) for _ in range(n)]
+    for s in strs:  # documented domain of intOfStr: ASCII, no whitespace / underscore
+        reqs.append(("t4_int", {"s": s})); want.append(("raw", exc(lambda: int(s), str)))
+    for _ in range(n // 2):
+        s = "".join(rng.choice("01,,a-") for _ in range(rng.randrange(0, 8)))
+        sep = rng.choice([",", "a", "-"])
+        reqs.append(("t4_split", {"s": s, "sep": sep})); want.append(("raw", s.split(sep)))
+        parts = s.split(",")
+        reqs.append(("t4_map", {"parts": parts})); want.append(("raw", exc(lambda: [int(p) for p in parts], lambda l: [str(x) for x in l])))
+    for _ in range(n):
+        xs = [rng.randrange(0, 6) for _ in range(rng.randrange(0, 6))]
+        i = rng.randrange(-8, 8)
+        reqs.append(("t4_list", {"xs": xs, "i": i}))
+        want.append(("raw", {"index": exc(lambda: xs[i], str), "max": exc(lambda: max(xs), str), "lenset": str(len(set(xs))),
+                             "counter": [[str(k), str(v)] for k, v in dict(Counter(xs)).items()], "rep": xs * i,
+                             "chars": [c for c in "".join(map(str, xs))]}))
+    for _ in range(n):
+        a = Fraction(rng.randrange(-20, 20), rng.choice([1, 2, 3, 4, 8]))
+        b = rng.choice([Fraction(0), a, Fraction(rng.randrange(-9, 9), rng.choice([1, 2, 5]))])
+        m, k = rng.randrange(-5, 6), rng.choice([0, 1, 2, 3, -4, 7])
+        xs = [Fraction(rng.randrange(-9, 9), rng.choice([1, 2, 3, 16])) for _ in range(rng.randrange(0, 6))]
+        reqs.append(("t4_num", {"a": R(a), "b": R(b), "m": m, "n": k, "xs": [R(x) for x in xs]}))
+        want.append(("raw", {"div": exc(lambda: a / b, R), "divint": exc(lambda: Fraction(m) / Fraction(k) if k else m / k, R),
+                             "sum": R(sum(xs)), "add": R(a + m), "mul": R(a * b), "sub": R(a - b), "eq": a == b, "le": a <= b,
+                             "lt": a < b}))
+    # math.isclose on dyadic floats (exact on both sides), clear of the 1e-9 boundary (2^-30 < 1e-9 < 2^-29)
+    for _ in range(n):
+        a = Fraction(rng.randrange(-40, 41), 2 ** rng.randrange(0, 6))
+        j = rng.choice([20, 25, 28, 29, 30, 31, 35, 45])
+        b = rng.choice([a, a * (1 + Fraction(1, 2 ** j)), a * (1 - Fraction(1, 2 ** j)), a + Fraction(1, 2 ** j), -a, Fraction(0), Fraction(1)])
+        assert Fraction(float(a)) == a and Fraction(float(b)) == b
+        reqs.append(("t4_isclose", {"a": R(a), "b": R(b)})); want.append(("raw", math.isclose(float(a), float(b))))
+    keys = [[], [0], [1], [0, 1], [1, 0], [12], [1, 2]]
+    for _ in range(n):
+        d = {tuple(k): Fraction(rng.randrange(-3, 9), rng.choice([1, 2, 4])) for k in rng.sample(keys, rng.randrange(0, 5))}
+        ops = [[rng.choice(["set", "mul", "acc", "acc"]), rng.choice(keys), R(Fraction(rng.randrange(-4, 9), rng.choice([1, 2])))]
+               for _ in range(rng.randrange(0, 6))]
+        probes = [rng.choice(keys) for _ in range(3)]
+
+        def play():
+            e = dict(d)
+            for kind, k, v in ops:
+                k, v = tuple(k), Fraction(v)
+                if kind == "set":
+                    e[k] = v
+                elif kind == "mul":
+                    e[k] *= v
+                else:
+                    e[k] = v + e.get(k, 0)
+            return e
+        reqs.append(("t4_dict", {"d": [[list(k), R(v)] for k, v in d.items()], "ops": ops, "probes": probes}))
+        want.append(("raw", exc(play, lambda e: {
+            "items": [[list(k), R(v)] for k, v in e.items()], "keys": [list(k) for k in e.keys()], "values": [R(v) for v in e.values()],
+            "tupkeys": len(e), "gets": [exc(lambda: e[tuple(k)], R) for k in probes],
+            "getds": [R(e.get(tuple(k), 5)) for k in probes]})))
+
+
 def run(seed=0, n=120):
     """returns (number of comparisons, list of disagreements)"""
     rng = random.Random(f"prelude:{seed}")
@@ -199,7 +276,7 @@ def run(seed=0, n=120):
     got = drv.run(reqs)
     bad = []
     for (op, payload), w, g in zip(reqs, want, got):
-        if op.startswith("t2_") and not isinstance(w, str):  # --- T2: structured answers compared after normalising ints
+        if (op.startswith("t2_") or op.startswith("t4_")) and not isinstance(w, str):  # --- T4: same treatment for t4_ ops  # --- T2: structured answers compared after normalising ints
             w = w[1] if isinstance(w, tuple) else w
             if _norm_t2(g) != _norm_t2(w):
                 bad.append(f"{op} {payload}: CPython {w!r}, prelude {g!r}")
